@@ -49,6 +49,21 @@ func (sc *Scenario) localizedArgs(c *CaseDef) []string {
 	return c.Args
 }
 
+// utils.TruncateEllipsis restated: at most n characters (negative = 0), ending in "..." where cut if there is room
+func truncEllipsis(s string, n int) string {
+	if n < 0 {
+		n = 0
+	}
+	r := []rune(s)
+	if len(r) <= n {
+		return s
+	}
+	if n < 3 {
+		return string(r[:n])
+	}
+	return string(r[:n-3]) + "..."
+}
+
 func truncRunes(s string, n int) string {
 	r := []rune(s)
 	if len(r) <= n {
@@ -323,11 +338,16 @@ func (sc *Scenario) directOracle(e expectation, obs *Obs, res *hx.Result, input 
 				if want := truncRunes(e.value, sc.MaxResult); o.Saved.Value != want {
 					fail("result-value", fmt.Sprintf("value %q, statement prescribes %q", o.Saved.Value, want))
 				}
-				if o.Saved.Input != e.input {
-					fail("result-input", fmt.Sprintf("input %q, operand is %q", o.Saved.Input, e.input))
+				// "the operand as input" - as far as the engine's limit on stored evaluated text (MaxTemplateChars, C05) lets it
+				wantInput := truncEllipsis(e.input, sc.maxTemplate())
+				if wantInput != e.input {
+					res.Dist("input_cut_to_max_template_chars")
+				}
+				if o.Saved.Input != wantInput {
+					fail("result-input", fmt.Sprintf("input %.80q (%d chars), operand is %.80q (%d chars, limit %d)", o.Saved.Input, len([]rune(o.Saved.Input)), e.input, len([]rune(e.input)), sc.maxTemplate()))
 				}
 			}
-			if e.branch == "random" && o.Saved.Input != e.input {
+			if e.branch == "random" && o.Saved.Input != truncEllipsis(e.input, sc.maxTemplate()) {
 				fail("draw", fmt.Sprintf("recorded draw %q, the generator's draw is %q", o.Saved.Input, e.input))
 			}
 			for _, ce := range o.ChangedEvents {
